@@ -17,6 +17,7 @@ Not decided: equality with brute-force marginals; independence of the eliminatio
 for all graphs (C12, not applicable).
 """
 import ast
+import re
 
 from . import _logrules as LR
 from .C10 import check_inf_guard
@@ -281,27 +282,51 @@ def check_fill_in(ctx):
 
 
 def check_tree_connected(ctx):
+    """the clique graph handed to minimum_spanning_tree has an edge for EVERY pair of maximal cliques, weighted by minus the size of
+    the intersection.  Stated on set-builder terms: `for c1, c2 in combinations(..): G.add_edge(c1, c2, weight=w)` and
+    `G.add_weighted_edges_from((c1, c2, w) for c1, c2 in combinations(..))` are the same collection."""
+    from ..engines.builders import Builder, method_calls, strip_wrappers
+    from ..engines.blockeval import BlockEval, T
+    from ..normalise import single_exit
+    from ..srcmodel import clone
     fi = ctx.repo.nfunc(JT, 'JunctionTree._make_tree')
     ctx.analysed(fi)
-    loops = [s for s in walk_shallow(fi.node) if isinstance(s, ast.For) and isinstance(s.iter, ast.Call)
-             and U(s.iter.func).endswith('combinations') and len(s.iter.args) == 2 and U(s.iter.args[1]) == '2']
-    if len(loops) != 1:
-        raise AnalysisError('_make_tree: loop over all pairs of maximal cliques not found')
-    loop = loops[0]
-    adds = [c for c in calls_in(loop) if isinstance(c.func, ast.Attribute) and c.func.attr == 'add_edge']
-    ok = False
-    where = loop
-    if len(adds) == 1:
-        where = adds[0]
-        stmt = None
-        for s in loop.body:
-            if any(c is adds[0] for c in calls_in(s)):
-                stmt = s
-        ok = isinstance(stmt, ast.Expr) and {U(a) for a in adds[0].args[:2]} == {U(e) for e in loop.target.elts}
-    ctx.ob('tree-connected', fi, where, ok,
-           'every pair of maximal cliques must get an edge (unconditionally, weight = -|intersection|) so that the spanning tree is '
-           'connected even for attribute-disjoint components; belief_propagation shares one logZ across all cliques')
-    tree = [c for c in calls_in(fi.node) if U(c.func).endswith('minimum_spanning_tree')]
-    graph = U(adds[0].func.value) if adds else None
-    ok = len(tree) == 1 and tree[0].args and U(tree[0].args[0]) == graph
-    ctx.ob('tree-connected', fi, tree[0] if tree else fi.node, ok, 'the junction tree is the spanning tree of that complete clique graph')
+    stmts, _ = single_exit(clone(fi.body), '__ret__')
+    be = BlockEval(fi.qualname, loop_ok=lambda s_: True)
+    be.run(stmts)
+    # the graph whose spanning tree is taken
+    trees = [n for v in list(be.env.values()) + [c for _, c, _, _ in be.calls] for n in ast.walk(v)
+             if isinstance(n, ast.Call) and U(n.func).endswith('minimum_spanning_tree')]
+    if not trees:
+        raise AnalysisError('_make_tree: no minimum_spanning_tree call')
+    G = U(trees[0].args[0]) if trees[0].args else None
+    builders = []
+    for s_, c, pc, loops in method_calls(be, G, 'add_edge'):
+        w = next((k.value for k in c.keywords if k.arg == 'weight'), None)
+        if len(c.args) >= 2 and w is not None:
+            builders.append(Builder(ast.Tuple(elts=[c.args[0], c.args[1], w], ctx=ast.Load()), loops,
+                                    [x if pol else ast.UnaryOp(op=ast.Not(), operand=x) for x, pol in pc], s_))
+    for s_, c, pc, loops in method_calls(be, G, 'add_weighted_edges_from'):
+        b = Builder.of_comprehension(c.args[0]) if c.args else None
+        if b is None or loops:
+            raise AnalysisError('_make_tree: unrecognised weighted-edge collection `%s`' % U(c)[:80])
+        builders.append(b)
+    if len(builders) != 1:
+        raise AnalysisError('_make_tree: loop over all pairs of maximal cliques not found (%d edge collections on `%s`)' % (len(builders), G))
+    b = builders[0]
+    elt, gens, conds = b.canon()
+    pairs = len(gens) == 1 and gens[0][0] == 2 and re.fullmatch(r'(itertools\.)?combinations\((.+),2\)', gens[0][1]) is not None
+    ends = elt.startswith('(_g0_0,_g0_1,') or elt.startswith('(_g0_1,_g0_0,')
+    ctx.ob('tree-connected', fi, b.where or fi.node, bool(pairs and ends and not conds),
+           'every pair of maximal cliques must get an edge (unconditionally) so that the spanning tree is connected even for '
+           'attribute-disjoint components; belief_propagation shares one logZ across all cliques; the source builds %s' % b.show()[:200],
+           construct='edges of the complete clique graph')
+    w = elt[len('(_g0_0,_g0_1,'):-1] if ends else ''
+    want = {'-len(set(_g0_0)&set(_g0_1))', '-len(set(_g0_1)&set(_g0_0))', '-len(set(_g0_0).intersection(_g0_1))',
+            '-len(set(_g0_1).intersection(_g0_0))', '-len(set(_g0_0).intersection(set(_g0_1)))', '-len(set(_g0_1).intersection(set(_g0_0)))'}
+    ctx.ob('tree-connected', fi, b.where or fi.node, w in want,
+           'the weight of a clique pair is minus the size of its intersection (a minimum spanning tree then maximises the separators); weight `%s`' % w,
+           construct='weight of the complete clique graph')
+    ok = len({T(t) for t in trees}) == 1
+    ctx.ob('tree-connected', fi, fi.node, ok, 'the junction tree is the spanning tree of that complete clique graph `%s`' % G,
+           construct='spanning tree of the clique graph')
